@@ -65,6 +65,9 @@ CHECKS = {
     "C10": ("exploration", "runtime differential: original scenario function vs a copy with the proposed rewrite applied, both compiled by the Go compiler and executed on an input grid; results, panics, ordered side-effect traces and final state compared",
             "For every in-scope checker (the property's list) scenario families instantiate the rewrite over operand pools (pure/impure operands that log into a trace, int/uint8/float/string/[]byte/time operands, decimal/octal/hex/binary/underscore/rune literals, +-1 on either side of all comparisons, function variables re-assigned after a defer, nil Stringers); each located rewrite is compiled next to its original and run on 48/144 inputs incl. NaN/Inf.",
             "integer grids avoid overflow and unsigned wrap-around; rewrites that do not compile are C09's business", "5/C10"),
+    "C12": ("exploration", "runtime monitoring by source instrumentation: the node a claim is about is wrapped in an observer (boolean value, panic frame, case-arm marker, nil observer, operand/argument comparator), the program is compiled and run on an input grid",
+            "Scenario families for sloppyLen, badCond, offBy1, caseOrder, nilValReturn, dupSubExpr and dupArg (pure and impure operands, channel receives, NaN, named float types, shadowed len, every interface/nil/concrete case order) are analysed; each diagnostic that asserts a definite run-time fact is refuted by any execution that observes the excluded value.",
+            "a claim counts only if the instrumented program compiled and the flagged node was reached; agreement is evidence, not proof", "5/C12"),
 }
 
 PENDING = {}
